@@ -223,6 +223,8 @@ def run(ctx) -> None:
   ctx.rule('R3', 'each dominance predicate is Pareto dominance with consistent orientation and a '
            'single negation towards "optimal"', 5)
   ctx.rule('R4', 'GetBestTrials: sign flip for MINIMIZE, unsafe trials warped first, descending rank / Pareto routine', 3)
+  ctx.rule('R7', 'sharded Pareto filter: num_shards (default and every explicit argument) is at least 2', 1)
+  ctx.rule('R6', 'the client marks a completion infeasible iff a reason was given (presence, not truthiness)', 1)
   ctx.rule('R5', 'dominance predicates compare coordinates directly, never `X - Y <op> 0` (inf - inf = NaN; the property covers +-inf)', 5)
   svc = Svc(ctx)
   fi = svc.rpcs['ListOptimalTrials']
@@ -233,6 +235,8 @@ def run(ctx) -> None:
   r3_naive(ctx)
   r4_best_trials(ctx)
   r5_no_difference_compare(ctx)
+  r6_client_infeasible_flag(ctx)
+  r7_shard_counts(ctx)
 
 
 # ------------------------------------------------------------------- R1, R2
@@ -443,6 +447,121 @@ def difference_compares(fn: ast.AST) -> List[ast.Compare]:
         if (is_diff(l) and _is_zero(r)) or (is_diff(r) and _is_zero(l)):
           out.append(c)
   return out
+
+
+def r7_shard_counts(ctx) -> None:
+  """The sharded JAX filter compares every candidate against the slices between consecutive points of
+  linspace(0, B, num_shards): with fewer than 2 points there is no slice, nothing is compared and every point is reported
+  optimal.  So the default and every explicit num_shards argument in the library must be at least 2."""
+  mod = ctx.index.need_module('vizier._src.jax.xla_pareto')
+  n = 0
+
+  def lower_bound(e: ast.AST) -> Optional[int]:
+    if isinstance(e, ast.Constant) and isinstance(e.value, int):
+      return e.value
+    if isinstance(e, ast.Call) and dotted(e.func) == 'max':
+      bs = [lower_bound(a) for a in e.args]
+      known = [b for b in bs if b is not None]
+      return max(known) if known else None
+    if isinstance(e, ast.Call) and dotted(e.func) == 'min':
+      bs = [lower_bound(a) for a in e.args]
+      return None if any(b is None for b in bs) else min(bs)
+    if isinstance(e, ast.BinOp) and isinstance(e.op, ast.Add):
+      l, r = lower_bound(e.left), lower_bound(e.right)
+      return None if l is None or r is None else l + r
+    return None
+  for fname in ('is_frontier', 'get_frontier'):
+    f = mod.functions.get(fname)
+    if f is None:
+      continue
+    a = f.node.args
+    for arg, d in zip(a.kwonlyargs, a.kw_defaults):
+      if arg.arg == 'num_shards' and d is not None:
+        n += 1
+        lb = lower_bound(d)
+        ctx.check(lb is not None and lb >= 2, 'R7', f'xla_pareto.{fname}: default num_shards', d, f'default {unparse(d, 20)} >= 2',
+                  f'default num_shards={unparse(d, 20)}: linspace(0, B, 1) has no slice, nothing is compared and every point is optimal',
+                  construct=f'{fname}:default-shards', func=f.qualname)
+  for f_ in ctx.src.py_files():
+    if not f_.startswith('vizier/'):
+      continue
+    txt_ = ctx.src.read(f_)
+    if 'is_frontier' not in txt_ and 'get_frontier' not in txt_:
+      continue
+    tree = ctx.src.parse(f_)
+    for c in ast.walk(tree):
+      if isinstance(c, ast.Call) and (dotted(c.func) or '').rsplit('.', 1)[-1] in ('is_frontier', 'get_frontier'):
+        for k in c.keywords:
+          if k.arg == 'num_shards':
+            n += 1
+            v = k.value
+            fn_ = next((a_ for a_ in ancestors(c) if isinstance(a_, ast.FunctionDef)), None)
+            if fn_ is not None:
+              v = flow.resolve_local(fn_, v)
+            lb = lower_bound(v)
+            passthrough = isinstance(v, ast.Name)
+            ctx.check(passthrough or (lb is not None and lb >= 2), 'R7', f'{f_.rsplit("/", 1)[-1]}: num_shards={unparse(k.value, 30)}', c,
+                      'at least 2 (or the caller\'s own argument)',
+                      f'num_shards = `{unparse(v, 50)}` can be {lb if lb is not None else "< 2"}: with one linspace point there is no shard, no point is '
+                      'compared with any other, and every point of a small set is reported Pareto-optimal',
+                      construct='shards<2', func=f_)
+  if n == 0:
+    raise AnalysisError('xla_pareto: no num_shards default found')
+
+
+def r6_client_infeasible_flag(ctx) -> None:
+  """Infeasible trials are never reported as optimal only if they are *stored* infeasible: the client marks a completion
+  infeasible exactly when a reason was given (`is not None`), also for the empty reason string."""
+  ci = ctx.index.need_class('vizier._src.service.vizier_client.VizierClient')
+  fi = ci.methods.get('complete_trial')
+  if fi is None:
+    raise AnalysisError('VizierClient.complete_trial not found')
+  site = None
+  for c in ast.walk(fi.node):
+    if isinstance(c, ast.Call) and (dotted(c.func) or '').endswith('CompleteTrialRequest'):
+      for k in c.keywords:
+        if k.arg == 'trial_infeasible':
+          site = k.value
+  for x in ast.walk(fi.node):
+    if isinstance(x, ast.Assign) and any((dotted(t) or '').endswith('.trial_infeasible') for t in x.targets):
+      site = x.value
+  if site is None:
+    raise AnalysisError('complete_trial: trial_infeasible is never set on the request')
+  site = flow.resolve_local(fi.node, site)
+  par = next((p_ for p_ in fi.params if 'reason' in p_), None)
+  if par is None:
+    raise AnalysisError('complete_trial: no reason parameter')
+
+  def ev(e, val):
+    if isinstance(e, ast.Name) and e.id == par:
+      return val
+    if isinstance(e, ast.Constant):
+      return e.value
+    if isinstance(e, ast.Call) and dotted(e.func) == 'bool' and len(e.args) == 1:
+      return bool(ev(e.args[0], val))
+    if isinstance(e, ast.UnaryOp) and isinstance(e.op, ast.Not):
+      return not ev(e.operand, val)
+    if isinstance(e, ast.Compare) and len(e.ops) == 1:
+      l, r = ev(e.left, val), ev(e.comparators[0], val)
+      op = e.ops[0]
+      if isinstance(op, ast.Is):
+        return l is r
+      if isinstance(op, ast.IsNot):
+        return l is not r
+      if isinstance(op, ast.Eq):
+        return l == r
+      if isinstance(op, ast.NotEq):
+        return l != r
+    if isinstance(e, ast.BoolOp):
+      vs = [ev(v, val) for v in e.values]
+      return all(vs) if isinstance(e.op, ast.And) else any(vs)
+    raise AnalysisError(f'complete_trial: cannot evaluate `{unparse(e, 50)}`')
+  got = {repr(v): bool(ev(site, v)) for v in (None, '', 'oom')}
+  want = {'None': False, "''": True, "'oom'": True}
+  ctx.check(got == want, 'R6', 'client marks a completion infeasible iff a reason was given', fi.node,
+            f'trial_infeasible = `{unparse(site, 50)}`: {got}',
+            f'trial_infeasible = `{unparse(site, 50)}` gives {got}, expected {want}: a trial completed as infeasible with an empty reason is '
+            'stored SUCCEEDED and can be reported as optimal', construct='client-infeasible-flag', func=fi.qualname)
 
 
 def r5_no_difference_compare(ctx) -> None:
